@@ -201,8 +201,7 @@ class C12(core.Check):
                 swallowed[0] += world.CLOCK.unwinds
                 if world.CLOCK.unwinds and swallowed_by[0] is None:
                     swallowed_by[0] = world.CLOCK.swallowed_by
-                    vs_ = [q for q in world.CLOCK.via if q not in ("safe_apply",)]
-                    via[0] = vs_[0] if vs_ else None
+                    via[0] = world.CLOCK.via_last
 
         def do_sched(upto):
             while sched and sched[0][0] <= upto:
@@ -322,8 +321,7 @@ class C12(core.Check):
             steps = world.CLOCK.stop()
             unw = world.CLOCK.unwinds
             unw_by = world.CLOCK.swallowed_by
-            vs_ = [q for q in world.CLOCK.via if q not in ("safe_apply",)]
-            unw_via = vs_[0] if vs_ else None
+            unw_via = world.CLOCK.via_last
             sys.stdout = old_out
             main.Context = old_ctx
         log.append(dict(ev="execute_vyxal", outcome=outcome or "ok"))
